@@ -48,6 +48,14 @@ type LimitCase struct {
 	// StaleWriteDeadline: the application set a write deadline (for its own
 	// messages) that has passed long ago; automatic replies are not subject to it.
 	StaleWriteDeadline bool `json:"stale_write_deadline,omitempty"`
+	// WriteSide: 0 healthy; 1 the application has already sent its own close
+	// frame; 2 every transport write fails.  The 1009 close then cannot get
+	// out, the over-limit read fails with ErrReadLimit all the same.
+	WriteSide int `json:"write_side,omitempty"`
+	// OverAbandon >= 0: the application reads at most that many bytes of the
+	// over-limit message and calls NextReader again (the library skips the
+	// rest): the limit applies to what is skipped too.
+	OverAbandon int `json:"over_abandon"`
 }
 
 func genLimitCase(t *rapid.T) LimitCase {
@@ -138,6 +146,11 @@ func genLimitCase(t *rapid.T) LimitCase {
 	c.Chunks = genChunks(t, "chunks", 800)
 	c.ReLimit = rapid.IntRange(0, 2).Draw(t, "relimit") == 0
 	c.StaleWriteDeadline = rapid.IntRange(0, 3).Draw(t, "stale_wdl") == 0
+	c.WriteSide = rapid.SampledFrom([]int{0, 0, 0, 1, 2}).Draw(t, "write_side")
+	c.OverAbandon = -1
+	if rapid.IntRange(0, 3).Draw(t, "over_abandon") == 0 {
+		c.OverAbandon = rapid.IntRange(0, 6).Draw(t, "over_abandon_n")
+	}
 	return c
 }
 
@@ -286,6 +299,15 @@ func checkC06(c LimitCase, o *Obs) error {
 		o.Class("stale_write_deadline")
 	}
 	h.install(conn)
+	switch c.WriteSide {
+	case 1:
+		conn.WriteControl(websocket.CloseMessage, websocket.FormatCloseMessage(1001, ""), time.Time{})
+		tr.ResetLog()
+		o.Class("application_close_sent_first")
+	case 2:
+		tr.SetWriteFault(&xport.WriteFault{K: 0, Kind: xport.FaultError})
+		o.Class("write_side_dead")
+	}
 
 	lens := make([]int, len(model.Msgs))
 	for i, m := range model.Msgs {
@@ -319,6 +341,12 @@ func checkC06(c LimitCase, o *Obs) error {
 			return fmt.Errorf("ErrReadLimit reported although every message was within the limit %d", L)
 		}
 		classifyLimit(c, model, o, false, false)
+		if c.WriteSide != 0 {
+			if len(tr.Wrote) != 0 {
+				return fmt.Errorf("%d bytes were written although the write side was finished before the reads began", len(tr.Wrote))
+			}
+			return nil
+		}
 		return checkWriteBack(tr.Wrote, c.R, pings, -1, false)
 	}
 	if withinBig {
@@ -342,6 +370,26 @@ func checkC06(c LimitCase, o *Obs) error {
 		}
 	} else if mt, r, err = conn.NextReader(); err != nil {
 		rerr = err
+	} else if c.OverAbandon >= 0 && !withinBig && (claim > uint64(L) || topbit) {
+		// (only when the crossing frame alone exceeds L: the library restarts
+		// its count for what it skips on the application's behalf, and the
+		// statement speaks about messages that are read)
+		// read a little, then move on: skipping the rest must hit the limit
+		part := make([]byte, c.OverAbandon)
+		k, e := io.ReadFull(r, part)
+		got = part[:k]
+		if e != nil && e != io.ErrUnexpectedEOF && e != io.EOF {
+			rerr = e
+		} else if e == io.EOF || e == io.ErrUnexpectedEOF {
+			rerr = io.EOF
+		} else {
+			_, _, nerr := conn.NextReader()
+			if nerr == nil {
+				return fmt.Errorf("limit %d: the application abandoned the over-limit message after %d bytes and NextReader delivered another message: the frames skipped on its behalf (claims %v+%d) are not held to the limit", L, k, c.Over.Pre, claim)
+			}
+			rerr = nerr
+			o.Class("over_limit_message_abandoned")
+		}
 	} else {
 		for {
 			k, e := r.Read(buf[:])
@@ -402,7 +450,12 @@ func checkC06(c LimitCase, o *Obs) error {
 			return fmt.Errorf("read %d after ErrReadLimit succeeded", i)
 		}
 	}
-	if err := checkWriteBack(tr.Wrote, c.R, pings, 1009, overflow || topbit); err != nil {
+	if c.WriteSide != 0 {
+		// nothing can be written back (C09 / C10 judge that nothing is)
+		if len(tr.Wrote) != 0 {
+			return fmt.Errorf("limit %d: %d bytes were written although the write side was finished before the reads began", L, len(tr.Wrote))
+		}
+	} else if err := checkWriteBack(tr.Wrote, c.R, pings, 1009, overflow || topbit); err != nil {
 		return fmt.Errorf("limit %d, claimed %d: %v", L, claim, err)
 	}
 	// memory: must not scale with the claimed length
